@@ -94,13 +94,6 @@ Qed.
 End Oracle.
 
 (** ---------- executable sanity of the input premise ---------- *)
-Fixpoint nodupb (l : list N) : bool :=
-  match l with [] => true | x :: r => negb (LGraph.mem x r) && nodupb r end.
-Definition gwfb (g : graph) : bool :=
-  nodupb (node_ids g) &&
-  forallb (fun e => let '(a, b, _) := e in
-                    LGraph.mem a (node_ids g) && LGraph.mem b (node_ids g) && negb (N.eqb a b)) (gedges g).
-
 Lemma nodupb_spec l : nodupb l = true -> NoDup l.
 Proof.
   induction l as [|x l IH]; simpl; intros E; [constructor|].
